@@ -25,6 +25,10 @@ package file
 // Scope: uncompressed jobs (the lz4 branch redefines offsets); stated as part of
 // the channel invariant.  I/O errors end the process (allow-exit).
 
+// (The pending skip of the first line - offsets_op tail - can only be pending while no
+// line of this pass has been completed: an over-limit line that is dropped on the spot
+// must not leave it pending for the next, in-limit line.)
+
 //@ func (*worker).work
 //@   option allow-exit yes
 //@   option dead-loops 2,3
@@ -60,6 +64,11 @@ package file
 //@   setat "if shouldCheckMax && !w.cutOffEventByLimit && len(accumBuf)+len(line) > w.maxEventSize {" wasSkip := skipLine
 //@   assert at "job.shouldSkip.Store(false)" wasSkip || (shouldCheckMax && !w.cutOffEventByLimit && lastOffset + scanned - ls > w.maxEventSize)
 //@   setat "accumBuf = accumBuf[:0]" ls := lastOffset + scanned
+//@   ghost nlines int = 0
+//@   setat "lastOffset := job.curOffset" nlines := 0
+//@   setat "accumBuf = accumBuf[:0]" nlines := nlines + 1
+//@   loop 4 invariant nlines >= 0 && (skipLine ==> nlines == 0)
+//@   loop 5 invariant nlines >= 0 && (skipLine ==> nlines == 0)
 //@   assert at "accumBuf = accumBuf[:0]" lastOffset + scanned >= 1 && content[lastOffset + scanned - 1] == '\n'
 //@   callee chanrecv:jobsChan() (j)
 //@     ghostout content, fpos, ls, gacc
@@ -142,6 +151,11 @@ package file
 // truncation the zero is what makes the restart begin at the start of the file):
 // ghost nstr counts the stream lines of the current job, one per iteration.
 
+// (load(save(x)) == x: file and stream names are keys - save writes them as they are; a
+// name passed through a sanitiser (valid-UTF-8 replacement, trimming, case folding,
+// quoting that parse does not undo) comes back as another name, or two names collide and
+// the file no longer loads: guard clauses.)
+
 //@ func (*offsetDB).save
 //@   ghost opened bool = false
 //@   ghost wrote bool = false
@@ -154,6 +168,20 @@ package file
 //@   loop 2 invariant nstr == rangeindex#2 + 1
 //@   setat "streams:" nstr := 0
 //@   setat "string(strOff.Stream)" nstr := nstr + 1
+//@   callee ToValidUTF8(s, r) (res)
+//@     requires false
+//@   callee ReplaceAll(s, a, b) (res)
+//@     requires false
+//@   callee Replace(s, a, b, n) (res)
+//@     requires false
+//@   callee Map(f, s) (res)
+//@     requires false
+//@   callee TrimSpace(s) (res)
+//@     requires false
+//@   callee ToLower(s) (res)
+//@     requires false
+//@   callee Quote(s) (res)
+//@     requires false
 //@   callee OpenFile(name, flag, perm) (f, err)
 //@     pure
 //@     set opened := err == nil
